@@ -1344,3 +1344,96 @@ func enumValidatedAtCreation(c *Ctx, getter string) (bool, string) {
 	}
 	return false, "no proposer tests " + getter + "() before the proposal: a request with an out-of-range value is committed, every replica builds the object with a nil implementation and panics on the first operation that uses it — again on every replay"
 }
+
+// ---- C20: an empty bootstrap address must not shadow the announced one -------------------------------------------------
+
+// emptyAddressDoesNotShadow: if the group is bootstrapped with peers that carry no Context (so the bootstrap ConfChange
+// entries announce an empty address), the address-book writer must still accept a later, non-empty address for a node it
+// already lists — the insert must be reachable on the `already present` side of its existence test.
+func emptyAddressDoesNotShadow(c *Ctx, r *Report, rule string) {
+	// (1) are there bootstrap peers without an address?
+	bare := ""
+	for _, f := range prodFuncs(c, "storage/raft") {
+		eachInstr(f, func(i ssa.Instruction) {
+			cl, ok := i.(*ssa.Call)
+			if !ok || !callID(&cl.Call).is("etcd/raft", "", "StartNode") {
+				return
+			}
+			// Peer literals built in this function: is the Context field ever stored?
+			stored := false
+			eachInstr(f, func(j ssa.Instruction) {
+				if st, isS := j.(*ssa.Store); isS {
+					if fld := fieldOfAddr(st.Addr); fld != nil && fld.Name() == "Context" && typeName(fld.Type()) == "" {
+						stored = true
+					}
+					if fa, isF := st.Addr.(*ssa.FieldAddr); isF {
+						if sf := structField(fa.X.Type(), fa.Field); sf != nil && sf.Name() == "Context" {
+							stored = true
+						}
+					}
+				}
+			})
+			if !stored {
+				bare = c.InstrPos(i)
+			}
+		})
+	}
+	if bare == "" {
+		r.OKTrivial(rule, "storage/raft", "bootstrap-peers-carry-addresses", "-", "no StartNode call with address-less peers: every ConfChange announces an address")
+		return
+	}
+	// (2) the writer of the address book
+	fAddr := c.Field("cluster", "Conn", "addresses")
+	if fAddr == nil {
+		r.Unk(rule, "cluster.Conn", "addresses", "-", "field not found")
+		return
+	}
+	n := 0
+	for _, f := range prodFuncs(c, "cluster") {
+		eachInstr(f, func(i ssa.Instruction) {
+			mu, ok := i.(*ssa.MapUpdate)
+			if !ok || fieldOfValueDeep(mu.Map) != fAddr {
+				return
+			}
+			if _, isP := strip(mu.Value).(*ssa.Parameter); !isP {
+				return
+			}
+			n++
+			// the existence test on the same key
+			reachableWhenPresent := false
+			tests := 0
+			for _, ifi := range allIfs(f) {
+				ex, isEx := ifi.Cond.(*ssa.Extract)
+				neg := false
+				if !isEx {
+					if u, isU := ifi.Cond.(*ssa.UnOp); isU && u.Op == token.NOT {
+						ex, isEx = u.X.(*ssa.Extract)
+						neg = true
+					}
+				}
+				if !isEx || ex.Index != 1 {
+					continue
+				}
+				lk, isL := ex.Tuple.(*ssa.Lookup)
+				if !isL || !lk.CommaOk || fieldOfValueDeep(lk.X) != fAddr {
+					continue
+				}
+				tests++
+				present := succOn(ifi, !neg)
+				if len(present.Instrs) == 0 {
+					continue
+				}
+				if _, reach := reachesAvoidingFrom(f, present.Instrs[0], func(z ssa.Instruction) bool { return z == ssa.Instruction(mu) }, func(ssa.Instruction) bool { return false }); reach {
+					reachableWhenPresent = true
+				}
+			}
+			if tests == 0 {
+				reachableWhenPresent = true // unconditional insert
+			}
+			r.Check(reachableWhenPresent, rule, fnName(f), fmt.Sprintf("address-insert#%d", n), c.InstrPos(mu), "the address book accepts an address for a node it already lists (at least when the listed one is empty): the bootstrap peers of StartNode at "+bare+" carry no Context, so a member that replays its log lists the bootstrap node with an empty address first — and the real address in the join handshake's reply is then dropped as `already present`; the restarted member can never dial that node again")
+		})
+	}
+	if n == 0 {
+		r.Unk(rule, "cluster.Conn", "address-insert", "-", "no insert of a parameter into the address book found")
+	}
+}
